@@ -79,9 +79,8 @@ def proof_stage(cfg):
                 fh.write(f'import {mod}\n' + ''.join(f'#print axioms {ob["name"]}\n' for ob in obs))
             rc, out = sh(['lake', 'env', 'lean', audit], cwd=LEAN)
             os.unlink(audit)
-            blocks = re.split(r"(?=')", out)
             found = {}
-            for m in re.finditer(r"'([^']+)' (does not depend on any axioms|depends on axioms: \[([^\]]*)\])", out, re.S):
+            for m in re.finditer(r"^'(.+)' (does not depend on any axioms|depends on axioms: \[([^\]]*)\])", out, re.S | re.M):
                 axs = set(a.strip() for a in (m.group(3) or '').replace('\n', ' ').split(',') if a.strip())
                 found[m.group(1)] = axs
             src = open(os.path.join(LEAN, mod.replace('.', '/') + '.lean')).read()
@@ -165,6 +164,8 @@ def main():
         ctx['disagreements'] = [d for r in corr_broken for d in r['disagreements']]
         mon_results = []
         for name in cfg['monitors']:
+            if not hasattr(monitors, 'monitor_' + name):
+                continue
             r = getattr(monitors, 'monitor_' + name)(ctx)
             mon_results.append(r)
             log(f'[{pid}] monitor {name}: {r["cases"]} cases, {len(r["failing"])} failing, {r["wall_s"]:.1f}s')
